@@ -231,6 +231,7 @@ def schema_behaviour(s, doc):
 # ------------------------------------------------------------------------------------ driver
 def units(tier):
     u = [["part", i] for i in range(len(gen.PARTS) + len(LABELLED) + len(MULTI_SHORT_PARTS))]
+    u += [["callpart", lo, hi] for lo, hi in gen.chunks(len(gen.callable_parts()), 24)]
     u += [["primhist", i] for i in range(len(PRIM_PATHS))]
     plen = 1 if tier == "quick" else 2
     npaths = len(list(gen.paths(plen, gen.PARTS12)))
@@ -249,7 +250,13 @@ YAML_POOL = [T.rule(P(R_PATHS[i]), R_CONDS[j], R_CASTS[k]) for i, j, k in
 def run_unit(unit, tier):
     res = Result()
     kind = unit[0]
-    if kind == "part":
+    if kind == "callpart":
+        # every comparison callable in every condition position of a part, all spellings of the part spec
+        cps = gen.callable_parts()
+        for i in range(unit[1], unit[2]):
+            for si, sp in enumerate(part_spellings(cps[i])):
+                check_part(res, cps[i], sp, key=("callpart", i, si))
+    elif kind == "part":
         p = (gen.PARTS + LABELLED + MULTI_SHORT_PARTS)[unit[1]]
         if p[0] != "prim":
             for si, sp in enumerate(part_spellings(p)):
